@@ -341,11 +341,14 @@ def grothProdPow (p : Int) (E : List Card) (f : List Int) : Except Err Card :=
     let b ← mpzPowm x.1.c2 x.2 p
     pure ⟨acc.c1 * a % p, acc.c2 * b % p⟩) ⟨1, 1⟩
 
+/-- the challenge length of a mode: `ℓ_e`, doubled in the non-interactive mode -/
+def modeLen (mode : Mode) (P : GrothPub) : Nat := match mode with | .ni _ => P.lnizk | _ => P.le
+
 /-- the checks before the SKC: `c, c_d ∈ C_ck`, `E_d ∈ C_pk`, `2^{ℓ} ≤ f_i < q`, `0 < Z < q` -/
 def grothChecks1 (mode : Mode) (P : GrothPub) (c cd : Int) (Ed : Card) (f : List Int) (Z : Int) :
     Except Err Bool := do
   let p := P.S.G.p; let q := P.S.G.q
-  let l := match mode with | .ni _ => P.lnizk | _ => P.le
+  let l := modeLen mode P
   if !(testMembership P c && testMembership P cd) then return false
   let a ← mpzPowm Ed.c1 q p
   let b ← mpzPowm Ed.c2 q p
